@@ -7,8 +7,8 @@ import (
 
 	"pgregory.net/rapid"
 
-	blncfg "github.com/containers/nri-plugins/pkg/apis/config/v1alpha1/resmgr/policy/balloons"
 	polcfg "github.com/containers/nri-plugins/pkg/apis/config/v1alpha1/resmgr/policy"
+	blncfg "github.com/containers/nri-plugins/pkg/apis/config/v1alpha1/resmgr/policy/balloons"
 	tacfg "github.com/containers/nri-plugins/pkg/apis/config/v1alpha1/resmgr/policy/topologyaware"
 	"github.com/containers/nri-plugins/pkg/zzverif/vfkit"
 )
@@ -19,21 +19,21 @@ var _ = blncfg.Config{}
 
 // genOpts steer the workload/config generators per property.
 type genOpts struct {
-	Policy       string
-	MaxOps       int
-	MinOps       int
-	Reconfig     bool // generate reconfigurations
-	FillPools    bool // many sub-core / burstable containers with large fractions
-	OptOuts      bool // 20-50% of containers carry an opt-out
-	MemPressure  bool // memory limits that overflow nodes
-	FailingReqs  bool // requests that are expected to fail
-	ColdStart    bool
-	NoUpdates    bool
-	ExclHeavy    bool // many Guaranteed whole-CPU containers in ordinary namespaces
-	PinAlways    bool // pinCPU/pinMemory always on
-	NoHideHT     bool
-	Anns         []annGen // annotation vocabulary (nil = topology-aware set)
-	Topo         vfkit.TopoOpts
+	Policy      string
+	MaxOps      int
+	MinOps      int
+	Reconfig    bool // generate reconfigurations
+	FillPools   bool // many sub-core / burstable containers with large fractions
+	OptOuts     bool // 20-50% of containers carry an opt-out
+	MemPressure bool // memory limits that overflow nodes
+	FailingReqs bool // requests that are expected to fail
+	ColdStart   bool
+	NoUpdates   bool
+	ExclHeavy   bool // many Guaranteed whole-CPU containers in ordinary namespaces
+	PinAlways   bool // pinCPU/pinMemory always on
+	NoHideHT    bool
+	Anns        []annGen // annotation vocabulary (nil = topology-aware set)
+	Topo        vfkit.TopoOpts
 }
 
 func ptr[T any](v T) *T { return &v }
